@@ -234,7 +234,7 @@ pub fn run(tier: Tier) -> Report {
                 let mut acc = Acc::default();
                 run_items(&mut acc, c, &l, &items);
                 refine_violations(&mut acc, 0, &items, 1, &|a, it| run_items(a, c, &l, it), &|it| json!(it));
-                acc.bucket("large images (65,539 and 262,147 pixels) decoded", 1);
+                acc.bucket("large images (65,539, 262,147 and 1281x721 pixels) decoded", 1);
                 rep.acc.merge(acc);
             }
         }
